@@ -160,6 +160,7 @@ fn run_step(boc: &Arc<BocData>, st: &Step, max_write: usize, hash_seed: u64) -> 
         lookups: vec![pd(&st.lookup)],
         app_rows: None,
         app_files: 1,
+        app_console: false,
         net_faults: vec![],
         fs_faults: FsFaultSpec::default(),
         knobs: Knobs { max_write, max_read: usize::MAX },
@@ -530,6 +531,7 @@ impl Engine for C14 {
                     lookups: dates.clone(),
                     app_rows: None,
                     app_files: 1,
+                    app_console: false,
                     net_faults: vec![],
                     fs_faults: FsFaultSpec::default(),
                     knobs: Knobs::default(),
